@@ -7,7 +7,11 @@ Streams
   * structure (correspondence): every constraint the real `enforce_bb` / `solve` post through
     `SATManager.imply / heuleencoding / pseudoboolencoding / add_clause` is captured and compared, as a set of
     canonical abstract constraints, with the constraint list of the Lean model (`FV/Model/RectSearch.lean`);
-    also `definecoords` and the value returned by `solve` for the solver's own model.
+    also `definecoords` and the value returned by `solve` for the solver's own model — both through the clause-level
+    `solveResult` and, from the raw `sm.model` dictionary, through the C07 model's `value` / `evalexpr` (`solveReturn`);
+    `rect_io.get_alloc` (records), `select_box` / `snap_coordinates` and `rect.area` against `FV/Model/RectIO.lean`
+    (bit-exact doubles; exact rationals on dyadic data), and on dyadic allocations the whole chain
+    allocation → select_box → definecoords → area → posted constraints inside the model.
   * spec on the implementation: ALL models of the real CNF (pysat, blocking clauses on the projected
     `b<i>_<cell>` variables) against a brute-force enumeration of the k-box single-trunk orthogons of the grid
     that meet the cost bound, and `rect.solve`'s return value (a shape meeting the bound iff one exists; the
@@ -25,7 +29,7 @@ import tempfile
 import types
 from fractions import Fraction
 
-from vcheck import Ctx, q2s, load_known
+from vcheck import Ctx, q2s, load_known, ulp_nudge, f2hex, hex2f
 
 import tools.rect.rect as rect
 import tools.rect.satmanager as satmanager
@@ -43,8 +47,15 @@ TRUSTED = [
     "cnf_models_are_orthogons / solve_found_iff_cnf: statements about the CNF the C07 model generates); what remains "
     "trusted is the fidelity of the C07 model to the Python SAT layer (checked by C07's own harness) and the SAT solver "
     "(pysat/minisat22, hypothesis Sat.SolverOK); variable names: str() of distinct grid coordinates distinct (hypothesis)",
-    "integer areas int(area(...)) are inputs of the model (float → int conversion not modelled); rect_io.select_box / get_alloc are "
-    "not modelled in Lean: select_box is checked on its outputs (exact corners on dyadic data, a proper grid on decimal data)",
+    "rect_io.get_alloc (record construction) / snap_coordinates / select_box and rect.area are modelled in FV/Model/RectIO.lean and "
+    "compared on every run: bit for bit on doubles (F mode; the model's Float arithmetic is IEEE binary64 like CPython's), in exact "
+    "rationals on dyadic data, the integer areas exactly except next to an integer (rounding tie); the theorems about them "
+    "(snap_no_sliver, selectBox_one_box_per_record, selectBox_exact_grid, pipeline_found_iff) are exact-arithmetic statements; "
+    "reading the YAML allocation (frame.allocation.Allocation) is property C02/C19, not modelled here",
+    "the value rect.solve returns is modelled from the raw answers of the SAT layer (FV/Model/RectSat.lean: solveReturn over the "
+    "C07 model's value / evalexpr) and compared on every run with the real return value (op retval); theorem solve_return_sound",
+    "not modelled: fstr_to_tuple / findbestgreedy (the greedy helper is a Windows DLL; the cost bound dif is an input), min-area mode "
+    "(ratio < 1), the informative quality figure, printing",
     "harness (Python) and compiled Lean driver: variable-name parsing, canonicalisation, brute-force orthogon enumerator",
 ]
 
@@ -236,14 +247,16 @@ def grid_cells(xs, ys, order=None):
     return cells
 
 
-MOD_KINDS = ("M", "M+other", "other+M", "other", "empty", "none")
+MOD_KINDS = ("M", "M+other", "other+M", "other", "empty", "none", "dupM")
 
 
 def mod_list(kind: str, p: float):
     """the per-cell module list of the parsed allocation (`ifile`) for a cell of the given kind"""
     o = min(0.1, max(0.0, 1.0 - p))
     return {"M": [{"M": p}], "M+other": [{"M": p}, {"other": o}], "other+M": [{"other": o}, {"M": p}],
-            "other": [{"other": 0.3}], "empty": [], "none": None}[kind]
+            "other": [{"other": 0.3}], "empty": [], "none": None,
+            # the module listed twice (only in a hand-built record list): the LAST entry is the one select_box keeps
+            "dupM": [{"M": 0.125}, {"other": o}, {"M": p}]}[kind]
 
 
 def expected_occ(inp) -> list[float]:
@@ -251,7 +264,7 @@ def expected_occ(inp) -> list[float]:
     mods = inp.get("mods")
     if not mods:
         return list(inp["occ"])
-    return [inp["occ"][t] if "M" in mods[t].split("+") else 0.0 for t in range(len(mods))]
+    return [inp["occ"][t] if ("M" in mods[t].split("+") or mods[t] == "dupM") else 0.0 for t in range(len(mods))]
 
 
 def yaml_num(v: float) -> str:
@@ -272,7 +285,15 @@ def alloc_through_file(dims, mods, occ):
     try:
         with os.fdopen(fd, "w") as f:
             f.write("[" + ",\n ".join(rows) + "]\n")
-        return call("get_alloc", get_alloc, path)
+        ifile = call("get_alloc", get_alloc, path)
+        try:        # the allocation object get_alloc read the records from (for the tie of get_alloc with its Lean model)
+            from frame.allocation.allocation import Allocation
+            a = Allocation(path)
+            _LAST["alloc_cells"] = [([ra.rect.center.x, ra.rect.center.y, ra.rect.shape.w, ra.rect.shape.h], dict(ra.alloc))
+                                    for ra in a.allocations]
+        except Exception:
+            _LAST["alloc_cells"] = None
+        return ifile
     finally:
         os.unlink(path)
 
@@ -283,6 +304,7 @@ def make_ip(inp):
     xs, ys, occ = inp["xs"], inp["ys"], inp["occ"]
     cells = grid_cells(xs, ys, inp.get("order"))
     via = inp.get("via")
+    _LAST["alloc_cells"] = None
     if via in ("alloc", "select_box", "get_alloc"):
         if via == "alloc":      # cells given as an allocation stores them: [xc, yc, w, h], in listing order
             dims = [list(d) for d in inp["alloc"]]
@@ -296,9 +318,110 @@ def make_ip(inp):
             rects = [{f"b{t}": [{"dim": d}, {"mod": mod_list(mods[t], occ[t])}]} for t, d in enumerate(dims)]
             ifile = {"Width": 1.0, "Height": 1.0, "Rectangles": rects}
         ip, _ = call("select_box", select_box, "M", ifile)
+        _LAST["ifile"] = ifile
     else:
+        _LAST["ifile"] = None
         ip = [(xs[i], ys[j], xs[i + 1], ys[j + 1], occ[t]) for t, (i, j) in enumerate(cells)]
     return ip, cells
+
+
+_LAST = {"ifile": None}
+
+
+def ifile_wire(ifile, enc) -> str:
+    """the parsed allocation as the Lean model of select_box reads it"""
+    out = [str(len(ifile["Rectangles"]))]
+    for r in ifile["Rectangles"]:
+        (rec,) = r.values()
+        out += [enc(v) for v in rec[0]["dim"]]
+        mods = rec[1]["mod"]
+        if mods is None:
+            out.append("N")
+        else:
+            out += ["M", str(len(mods))]
+            for d in mods:
+                out.append(str(len(d)))
+                for kk, v in d.items():
+                    out += [str(kk), enc(v)]
+    return " ".join(out)
+
+
+def boxes_equal(reply: str, ip, dec) -> bool:
+    parts = reply.split(" | ")
+    if not parts or parts[0] != str(len(ip)) or len(parts) != len(ip) + 1:
+        return False
+    for p, b in zip(parts[1:], ip):
+        t = p.split()
+        if len(t) != 5 or any(dec(x) != y for x, y in zip(t, b)):      # by value: 0.0 == -0.0
+            return False
+    return True
+
+
+def _dyadic(v: float) -> bool:
+    return Fraction(v).denominator <= 1 << 20
+
+
+def boxes_close(reply: str, ip) -> bool:
+    """same boxes up to rounding: every coordinate within 1e-9·extent and the same coincidence pattern of the
+    coordinates (which sides share a grid line) — what a mathematically equivalent rewrite of the corner arithmetic may do"""
+    parts = reply.split(" | ")
+    if not parts or parts[0] != str(len(ip)) or len(parts) != len(ip) + 1:
+        return False
+    got = [[hex2f(x) for x in p.split()] for p in parts[1:]]
+    if any(len(g) != 5 for g in got):
+        return False
+    flat_i = [v for b in ip for v in b[:4]]
+    flat_g = [v for b in got for v in b[:4]]
+    ext = max(max(flat_i) - min(flat_i), 1e-300)
+    if any(abs(a - b) > 1e-9 * ext for a, b in zip(flat_i, flat_g)) or any(a[4] != b[4] for a, b in zip(ip, got)):
+        return False
+    for ax in (0, 1):
+        ci = [b[ax + d] for b in ip for d in (0, 2)]
+        cg = [b[ax + d] for b in got for d in (0, 2)]
+        if [[x == y for y in ci] for x in ci] != [[x == y for y in cg] for x in cg]:
+            return False
+    return True
+
+
+def area_is_tie(factor, b) -> bool:
+    """the exact product sits next to an integer: truncation depends on the rounding of the float products"""
+    x0, y0, x1, y1, p = (Fraction(v) for v in b)
+    for v in (factor * p * (x1 - x0) * (y1 - y0), factor * (x1 - x0) * (y1 - y0)):
+        if abs(v - round(v)) <= Fraction(1, 10 ** 6) * max(1, abs(v)) and v != round(v):
+            return True
+        if v == round(v) and not all(_dyadic(float(t)) for t in b):
+            return True       # an exact integer reached through inexact products (0.1 · 0.3 · 1e4 …)
+    return False
+
+
+def select_box_tie(ctx: Ctx, inp, ip, size, reqs, todo) -> None:
+    """rect_io.select_box (and get_alloc's records) and rect.area against the Lean model, bit for bit on doubles; on
+    dyadic data also in exact rationals"""
+    ifile = _LAST["ifile"]
+    cells_a = _LAST.pop("alloc_cells", None)
+    if ifile is not None and cells_a is not None:
+        fx = lambda v: f2hex(float(v))
+        reqs.append(f"F galloc {len(cells_a)} " + " ".join(
+            " ".join(fx(v) for v in d) + f" {len(al)}" + "".join(f" {kk} {fx(v)}" for kk, v in al.items()) for d, al in cells_a))
+        names = [list(r.keys()) for r in ifile["Rectangles"]]
+        if names != [[f"b{t}"] for t in range(len(names))]:
+            ctx.spec_fail("get_alloc:record-names", inp, {"names": names[:6]}, size)
+        todo.append(("galloc", inp, ifile_wire(ifile, fx), size))
+        ctx.count("get_alloc:records-compared")
+    if ifile is not None:
+        fx = lambda v: f2hex(float(v))
+        reqs.append(f"F selbox M {ifile_wire(ifile, fx)}")
+        todo.append(("selbox:F", inp, list(ip), size))
+        if inp.get("via") in ("select_box", "get_alloc"):
+            qx = lambda v: q2s(Fraction(v))
+            reqs.append(f"Q selbox M {ifile_wire(ifile, qx)}")
+            todo.append(("selbox:Q", inp, list(ip), size))
+    c = types.SimpleNamespace(input_problem=list(ip), factor=FACTOR)
+    sel = [int(call("area", rect.area, c, b, True)) for b in range(len(ip))]
+    real = [int(call("area", rect.area, c, b, False)) for b in range(len(ip))]
+    if ip:
+        reqs.append(f"F areas {FACTOR} {len(ip)} " + " ".join(" ".join(f2hex(float(v)) for v in b) for b in ip))
+        todo.append(("areas", inp, (sel, real, [area_is_tie(FACTOR, b) for b in ip]), size))
 
 
 def gen_mods(rng, ncells: int, allow_none: bool = True) -> list[str]:
@@ -309,7 +432,7 @@ def gen_mods(rng, ncells: int, allow_none: bool = True) -> list[str]:
         if rng.random() < frac:
             out.append("none" if allow_none and rng.random() < 0.2 else "empty")
         else:
-            out.append(rng.choice(["M", "M", "M+other", "other+M", "other"]))
+            out.append(rng.choice(["M", "M", "M+other", "other+M", "other"] + (["dupM"] if allow_none else [])))
     if frac > 0 and "empty" not in out:
         out[rng.randrange(ncells)] = "empty"
     return out
@@ -433,6 +556,8 @@ def grid_case(ctx: Ctx, inp: dict, reqs: list, todo: list) -> None:
         ctx.spec_fail("select_box:one-box-per-cell", inp,
                       {"n_cells": len(cells), "n_boxes": len(ip), "occupancies": [b[4] for b in ip], "expected": exp_occ}, size)
         return
+    if not _LAST.pop("tied", False):
+        select_box_tie(ctx, inp, ip, size, reqs, todo)
     # 0. the grid the implementation sees (exact comparison; corners are shared by construction or, through
     #    select_box, recomputed from dyadic centres/sizes)
     if c.xcoords != sorted(set(xs)) or c.ycoords != sorted(set(ys)):
@@ -453,6 +578,13 @@ def grid_case(ctx: Ctx, inp: dict, reqs: list, todo: list) -> None:
         ctx.disagree("solvec:unparsed-variable", inp, str(bad[:3]), "", size)
     reqs.append(f"Q solvec {k} {int(ratio)} {dif0} {ip_wire(ip)} {areas_wire(c)}")
     todo.append(("solvec", inp, impl_set, size))
+    # 1b. the same constraint set from the parsed allocation alone: select_box, definecoords, area and solve all inside the
+    #     model (exact rationals: dyadic data, where the float arithmetic of the implementation is exact)
+    if inp.get("via") in ("select_box", "get_alloc") and _LAST.get("ifile") is not None and \
+            all(_dyadic(float(v)) and abs(v) < 2 ** 30 for b in ip for v in b):
+        reqs.append(f"Q chain {k} {int(ratio)} {dif0} {FACTOR} M {ifile_wire(_LAST['ifile'], lambda v: q2s(Fraction(v)))}")
+        todo.append(("solvec", inp, impl_set, size))
+        ctx.count("chain:allocation-to-constraints")
     # 2. every model of the real CNF  vs  brute force
     shapes = orthogons(m, n, k)
     expect = {}
@@ -518,6 +650,13 @@ def grid_case(ctx: Ctx, inp: dict, reqs: list, todo: list) -> None:
                     + " ".join(f"{i} {b}" for i, b in true_cells) + f" {len(true_sel)} " + " ".join(map(str, true_sel)))
         impl = f"found {last[0]}" + "".join(" | " + " ".join(num(v) for v in r) for r in rects)
         todo.append(("result", inp, impl, size))
+    # 3b. the same return value from the RAW answers of the SAT layer (sm.solve() as seen in sm.model, the dictionary
+    #     sm.model itself) through the Lean model of value() / evalexpr() and of solve's post-processing (`solveReturn`)
+    mdl = [(v, x) for v, x in sm.model.items() if re.match(r"^b\d*_\d+$", v)]
+    reqs.append(f"Q retval {k} {int(ratio)} {ip_wire(ip)} {areas_wire(c)} {1 if sm.model else 0} {len(mdl)} "
+                + " ".join(f"{v} {x}" for v, x in mdl))
+    todo.append(("retval", inp, "insat" if not rects else
+                 f"found {last[0]}" + "".join(" | " + " ".join(num(v) for v in r) for r in rects), size))
     nontrivial = bool(shapes) and k * m * n > 1
     ctx.case("grid", (tuple(xs), tuple(ys), tuple(inp.get("order") or ()), tuple(inp["occ"]), k, ratio, dif0, inp.get("via")),
              nontrivial, sample={"xs": xs, "ys": ys, "k": k, "dif0": dif0, "n_shapes": len(meeting),
@@ -570,9 +709,15 @@ SEAM_FINDING = "C08-selectbox-float-seams"
 
 
 def seam_dims(inp):
+    """row-major (centre, size) list of a uniform decimal-step grid; `noise` (optional) moves the centre / size of
+    individual cells by a few units in the last place — the last-bit noise of values that were COMPUTED (0.1 + 0.05)
+    instead of written (0.15) — so that the cells of one column / row disagree about their common side"""
     m, n, step, ox, oy = inp["m"], inp["n"], inp["step"], inp["ox"], inp["oy"]
-    return [[round(ox + (i + 0.5) * step, 10), round(oy + (j + 0.5) * step, 10), step, step]
+    dims = [[round(ox + (i + 0.5) * step, 10), round(oy + (j + 0.5) * step, 10), step, step]
             for j in range(n) for i in range(m)]
+    for (t, f, k) in inp.get("noise") or []:
+        dims[t][f] = ulp_nudge(dims[t][f], k)
+    return dims
 
 
 def seam_case(ctx: Ctx, inp: dict, reqs: list, todo: list) -> None:
@@ -585,8 +730,16 @@ def seam_case(ctx: Ctx, inp: dict, reqs: list, todo: list) -> None:
     rm = seam_dims(inp)
     dims = [rm[t] for t in perm]                       # the allocation lists its cells in this order
     ginp = {"kind": "grid", "alloc": dims, "order": perm, "occ": inp["occ"], "mods": inp.get("mods"), "k": inp["k"], "ratio": inp["ratio"],
-            "dif0": LOW, "family": "decimal-alloc/" + inp.get("perm_kind", "rowmajor"), "via": "alloc", "xs": [], "ys": []}
+            "dif0": inp.get("dif0", LOW), "family": "decimal-alloc/" + inp.get("perm_kind", "rowmajor") + ("/noisy" if inp.get("noise") else ""),
+            "via": "alloc", "xs": [], "ys": []}
+    # through a YAML allocation file and the real get_alloc (allocation files only admit non-negative corners)
+    if inp.get("through_file") and all(d[0] - d[2] / 2 >= 0 and d[1] - d[3] / 2 >= 0 for d in dims):
+        ginp["through_file"] = True
+        ginp["occ"] = [float(yaml_num(v)) for v in inp["occ"]]
+        if ginp["mods"]:
+            ginp["mods"] = ["empty" if k == "none" else "M" if k == "dupM" else k for k in ginp["mods"]]
     ip, cells = make_ip(dict(ginp, xs=list(range(m + 1)), ys=list(range(n + 1))))
+    select_box_tie(ctx, inp, ip, m * n, reqs, todo)
     exp_occ = expected_occ(ginp)
     if len(ip) != len(cells) or any(ip[t][4] != exp_occ[t] for t in range(len(cells))):
         ctx.case("seam", (m, n, step, ox, oy, tuple(perm)), nontrivial=True)
@@ -595,6 +748,14 @@ def seam_case(ctx: Ctx, inp: dict, reqs: list, todo: list) -> None:
         return
     c = carrier_of(ip)
     scale = 1e-8 * max(m * step, n * step)
+    # no two grid lines closer than 1e-9·extent: float noise must never survive as a sliver column / row
+    ext = max(c.xcoords[-1] - c.xcoords[0], c.ycoords[-1] - c.ycoords[0])
+    close = [(a, b) for cs in (c.xcoords, c.ycoords) for a, b in zip(cs, cs[1:]) if b - a <= 1e-9 * ext]
+    if close:
+        ctx.case("seam", (m, n, step, ox, oy, tuple(perm), repr(inp.get("noise"))), nontrivial=True)
+        ctx.spec_fail("grid:sliver-between-grid-lines", inp, {"pairs": [[repr(a), repr(b)] for a, b in close[:4]],
+                                                                "xcoords": c.xcoords, "ycoords": c.ycoords}, m * n)
+        return
     ok = len(c.xcoords) == m + 1 and len(c.ycoords) == n + 1
     ok = ok and all(abs(c.xcoords[i] - (ox + i * step)) <= scale for i in range(m + 1))
     ok = ok and all(abs(c.ycoords[j] - (oy + j * step)) <= scale for j in range(n + 1))
@@ -607,7 +768,39 @@ def seam_case(ctx: Ctx, inp: dict, reqs: list, todo: list) -> None:
                                                           "expected_lines": [m + 1, n + 1]}, m * n)
         return
     ginp["xs"], ginp["ys"] = list(c.xcoords), list(c.ycoords)
+    _LAST["tied"] = True
     grid_case(ctx, ginp, reqs, todo)
+
+
+def snap_case(ctx: Ctx, inp: dict, reqs: list, todo: list) -> None:
+    """kind = 'snap': cells whose sides miss each other by about the snapping tolerance (1e-9·extent): above it the input is
+    not a grid and the property says nothing, so only the correspondence of select_box with its Lean model is checked"""
+    dims, mods, occ = inp["alloc"], inp["mods"], inp["occ"]
+    rects = [{f"b{t}": [{"dim": d}, {"mod": mod_list(mods[t], occ[t])}]} for t, d in enumerate(dims)]
+    ifile = {"Width": 1.0, "Height": 1.0, "Rectangles": rects}
+    ip, _ = call("select_box", select_box, "M", ifile)
+    _LAST["ifile"] = ifile
+    _LAST["alloc_cells"] = None
+    select_box_tie(ctx, inp, ip, len(dims), reqs, todo)
+    xs = sorted({v for b in ip for v in (b[0], b[2])})
+    ctx.case("snap", repr(dims), nontrivial=len(dims) > 1)
+    ctx.count("snap:xlines%d" % min(9, len(xs)))
+
+
+def gen_snap(rng):
+    m, n = rng.randint(1, 3), rng.randint(1, 3)
+    step = rng.choice([0.1, 0.3, 1.0, 0.25, 2.5, 100.0])
+    ox, oy = rng.choice([0.0, 1.0, -3.0, 0.2, 1000.0]), rng.choice([0.0, 0.4, -1.0])
+    ext = max(m, n) * step
+    dims = []
+    for j in range(n):
+        for i in range(m):
+            d = [ox + (i + 0.5) * step, oy + (j + 0.5) * step, step, step]
+            if rng.random() < 0.5:      # a side off by a multiple of the tolerance (below, at, just above, well above)
+                d[rng.randrange(4)] += rng.choice([1, -1]) * rng.choice([2e-10, 8e-10, 9.9e-10, 1e-9, 1.01e-9, 1.2e-9, 2e-9, 5e-9, 1e-7]) * ext
+            dims.append(d)
+    rng.shuffle(dims)
+    return {"kind": "snap", "alloc": dims, "mods": gen_mods(rng, m * n), "occ": gen_occ(rng, m * n)}
 
 
 def compare(ctx: Ctx, todo, replies) -> None:
@@ -627,6 +820,54 @@ def compare(ctx: Ctx, todo, replies) -> None:
             else:
                 ctx.disagree(op, inp, impl if isinstance(impl, str) else f"{len(impl)} constraints",
                              mod if isinstance(mod, str) else f"{len(mod)} constraints", size)
+        elif op == "galloc":
+            def parse(w):       # records with their module dictionaries in a canonical order (a cell lists each module once)
+                t = w.split()
+                pos, out = 1, []
+                for _ in range(int(t[0])):
+                    dims, flag = t[pos:pos + 4], t[pos + 4]
+                    pos += 5
+                    mods = None
+                    if flag == "M":
+                        nd = int(t[pos]); pos += 1
+                        mods = []
+                        for _ in range(nd):
+                            ni = int(t[pos]); pos += 1
+                            mods.append(tuple(t[pos:pos + 2 * ni])); pos += 2 * ni
+                        mods.sort()
+                    out.append((dims, mods))
+                return out
+            try:
+                same = parse(impl) == parse(reply)
+            except Exception:
+                same = False
+            if not same:
+                ctx.disagree(op, inp, impl[:600], reply[:600], size)
+        elif op in ("selbox:F", "selbox:Q"):
+            dec = hex2f if op.endswith("F") else (lambda x: Fraction(x))
+            if not boxes_equal(reply, impl, dec):
+                dy = all(_dyadic(float(v)) for b in impl for v in b)
+                if op.endswith("F") and not dy and boxes_close(reply, impl):
+                    ctx.drift += 1      # decimal data: equal up to the rounding of the corner arithmetic
+                else:
+                    ctx.disagree(op, inp, [[num(v) for v in b] for b in impl], reply[:600], size)
+        elif op == "areas":
+            sel, real, ties = impl
+            try:
+                a, b = reply.split(" | ")
+                msel, mreal = [int(x) for x in a.split()], [int(x) for x in b.split()]
+            except Exception:
+                msel, mreal = None, None
+            if msel is None or len(msel) != len(sel) or len(mreal) != len(real):
+                ctx.disagree(op, inp, [sel, real], reply[:300], size)
+            else:
+                for t in range(len(sel)):
+                    if (sel[t], real[t]) != (msel[t], mreal[t]):
+                        if ties[t] and abs(sel[t] - msel[t]) <= 1 and abs(real[t] - mreal[t]) <= 1:
+                            ctx.ties += 1
+                        else:
+                            ctx.disagree(op, inp, [sel, real], reply[:300], size)
+                            break
         elif op == "coords":
             def norm(s):
                 parts = s.split(" | ")
@@ -754,6 +995,8 @@ def run_cases(ctx: Ctx, inputs: list[dict]) -> None:
                 grid_case(ctx, inp, reqs, todo)
             elif inp["kind"] == "seam":
                 seam_case(ctx, inp, reqs, todo)
+            elif inp["kind"] == "snap":
+                snap_case(ctx, inp, reqs, todo)
             else:
                 raw_case(ctx, inp, reqs, todo)
         except ImplRaised as e:
@@ -797,7 +1040,11 @@ def run(ctx: Ctx) -> None:
                 "with 0–40 % truly empty cells ({}), cells hosting only another module, the module with another one. quick: every shape ≤ 3×3 with k ≤ 3 (5 grids per shape for k ≤ 2, "
                 "2 for k = 3), each with and without a cost bound, + 60 random ≤ 3×3 / 2×4 with bounds; thorough: every shape ≤ 3×3 "
                 "and 2×4, 4×2 with k ≤ 3 (12 grids each) and 1500 random ≤ 4×4 with cost bounds.  'seam' cases: uniform decimal-step "
-                "grids given as (centre, size) like an allocation file, through rect_io.select_box.  'raw' cases: arbitrary box lists "
+                "grids given as (centre, size) like an allocation file, through rect_io.select_box; 120 (thorough 1500) of them with the centre / "
+                "size of ~45 % of the cells moved by 1–3 ulps (values that were computed rather than written), 60 % anchored at the origin "
+                "(a side exactly at 0.0 next to sides carrying noise), half through a YAML file and the real get_alloc; no two grid lines "
+                "may be closer than 1e-9·extent.  'snap' cases (300 / 3000): cells whose sides miss each other by 0.2…100 × the snapping "
+                "tolerance, select_box against its Lean model only.  'raw' cases: arbitrary box lists "
                 "(overlapping, degenerate, non-product) for the structure stream of enforce_bb/definecoords alone.  A grid "
                 "case is non-trivial when the grid has at least one k-box orthogon and more than one (box, cell) variable")
     ctx.assumptions += [
@@ -856,6 +1103,26 @@ def run(ctx: Ctx) -> None:
                        "occ": gen_occ(rng, m * n), "mods": gen_mods(rng, m * n) if rng.random() < 0.6 else None,
                        "k": rng.choice([1, 2, 2]) if quick or m * n > 9 else rng.choice([1, 2, 3]),
                        "ratio": rng.choice([2.0, 3.0, 1.0])})
+    # computed-looking centres / sizes: individual cells off by a few ulps, grids anchored at the origin (a side exactly at
+    # 0.0 next to sides carrying noise), at other decimal origins, listed in any order, half of them through a YAML file
+    for _ in range(ctx.n(120, 1500)):
+        m, n = rng.randint(1, 4), rng.randint(1, 4)
+        if m * n == 1:
+            n = 3
+        pk, perm = cell_order(rng, m, n)
+        nz = []
+        for t in range(m * n):
+            if rng.random() < 0.45:
+                nz.append([t, rng.choice([0, 1, 0, 1, 2, 3]), rng.choice([1, -1, 1, 2, -2, 3])])
+        step = rng.choice([0.1, 0.3, 0.7, 0.05, 1.1, 0.15, 0.9])
+        k = rng.choice([1, 2, 2]) if quick or m * n > 9 else rng.choice([1, 2, 3])
+        inp = {"kind": "seam", "m": m, "n": n, "step": step, "ox": rng.choice([0.0, 0.0, 0.0, 1.0, 0.2]),
+               "oy": rng.choice([0.0, 0.0, 0.4, 2.0]), "perm": perm, "perm_kind": pk, "noise": nz,
+               "occ": gen_occ(rng, m * n), "mods": gen_mods(rng, m * n) if rng.random() < 0.4 else None,
+               "k": k, "ratio": rng.choice([2.0, 3.0, 1.0]), "through_file": rng.random() < 0.5}
+        inputs.append(inp)
+    for _ in range(ctx.n(300, 3000)):
+        inputs.append(gen_snap(rng))
     run_cases(ctx, inputs)
 
 
